@@ -1,6 +1,8 @@
 """C03 - Aztec: every accepted payload decodes back to exactly that payload.
 model phase : MC_Aztec - geometry laws for all 36 sizes (layer spiral covers every non-function module exactly once, bit count formula,
               reference-grid lines), high-level automaton self-consistency (encoder-model-free: every latch/shift path), layer chooser model
+              AztecHLEnc.tla: transcription of the library's state-search high-level encoder || decoding automaton for all strings up to length 4 (5) over
+              representative bytes, plus a negative design (binary shift from punctuation mode without latch) that must violate RoundTrip
 trace valid.: every image is read by the reference reader of Aztec.tla (TraceAztec)"""
 import vlib, onedim, gen
 
@@ -30,6 +32,12 @@ def az_jobs(rng, quick):
     triples = list(itertools.product(CLASSES, repeat=3))
     for combo in (rng.sample(triples, 150) if quick else triples):
         add("".join(rng.choice(CLASSES[c]) for c in combo))
+    # runs: k characters of one class (long enough for the encoder to LATCH rather than shift) followed by one of another class
+    for cx in CLASSES:
+        for k in ((2, 4, 6) if quick else (1, 2, 3, 4, 5, 6, 8)):
+            for cy in CLASSES:
+                if cx != cy:
+                    add("".join(rng.choice(CLASSES[cx]) for _ in range(k)) + rng.choice(CLASSES[cy]) + rng.choice(["", "ab", "Z9"]), rng.choice([0, 23, 33]))
     for s in ["\r\n", ". ", ", ", ": ", "a. b, c: d\r\ne", ".\r", ":", "\r", "A\r\nB", "1, 2. 3: 4", ". . . ", ",,  ", "::  ::"]:
         add(s)
         add("Ab" + s + "1")
@@ -95,7 +103,10 @@ def key_extra(ev, why):
 def run(tier):
     chk = vlib.Check("C03", tier)
     quick = tier == "quick"
-    chk.add_model([dict(module="MC_Aztec.tla", cfg="MC_Aztec.cfg", workers=8, timeout=3000, heap="6g")])
+    chk.add_model([dict(module="MC_Aztec.tla", cfg="MC_Aztec.cfg", workers=4, timeout=3000, heap="6g"),
+                   dict(module="MC_AztecHL.tla", cfg="MC_AztecHL_quick.cfg" if quick else "MC_AztecHL_thorough.cfg", workers=8, timeout=5000, heap="6g"),
+                   dict(module="MC_AztecHL.tla", cfg="MC_AztecHL_prefix.cfg", workers=2, timeout=1000),
+                   dict(module="MC_AztecHL.tla", cfg="MC_AztecHL_nofix.cfg", workers=2, timeout=1000, expect_violation="RoundTrip")])
     drive = vlib.build_harness(chk.work)
     jobs = az_jobs(chk.rng, quick)
     evs, extras = onedim.judge(chk, drive, jobs, "TraceAztec", "TraceAztec.cfg", 14 if quick else 16, wanted, heap="5g", timeout=6000, describe=describe)
